@@ -49,6 +49,17 @@ func (f *Forest) lookup(m proto.Message) (int, PtrInfo, bool) {
 func detachedPrimValue(m proto.Message) (Item, bool) {
 	d := m.ProtoReflect().Descriptor()
 	ty, k := FHIRTypeOf(d)
+	if q, ok := m.(*dtpb.Quantity); ok {
+		// A FHIR Quantity stands for the System Quantity (value, code).
+		if q.GetValue() == nil {
+			return nil, false
+		}
+		dv, err := DecFromString(q.GetValue().GetValue())
+		if err != nil {
+			return Item{"t": "unk", "go": "quantity:" + q.GetValue().GetValue()}, true
+		}
+		return QtyItem(dv, q.GetCode().GetValue()), true
+	}
 	if k != "prim" {
 		return nil, false
 	}
@@ -145,7 +156,9 @@ func (f *Forest) ProjectItem(v any) Item {
 		it["addr"] = append([]int{}, pi.Node.Addr...)
 		it["wrapped"] = pi.Wrapped && pi.Node.Ch
 	}
-	if pv, ok := detachedPrimValue(m); ok {
+	if r, pi, ok := f.lookup(m); ok && r > 0 && !pi.Wrapped && pi.Node.K == "prim" {
+		it["v"] = pi.Node.V
+	} else if pv, ok := detachedPrimValue(m); ok {
 		it["v"] = pv
 	} else {
 		it["v"] = Item{"t": "none"}
